@@ -963,6 +963,10 @@ class BlockwiseRequest(BaseUnicastRequest, interfaces.Request):
                 break
 
             block1 = blockresponse.opt.block1
+            if current_block1.opt.block1 is None:
+                raise error.UnexpectedBlock1Option(
+                    "Block1 option in response to a request without Block1"
+                )
             log.debug(
                 "Response with Block1 option received, number = %d, more = %d, size_exp = %d.",
                 block1.block_number,
